@@ -101,7 +101,7 @@ theorem assignedValues_semF {ctx : Ctx} {T : List FEntry} {B : Nat} (hT : TableO
     refine ⟨new3 ++ (Line.assign (ctx.tn i) (firstValue r) :: new1), n1 + n3, ?_, ?_, ?_, ?_⟩
     · rw [es, e3, ← es2]; simp [adv, Nat.add_assoc]; rfl
     · rw [ev, ets, ← ev2]; simp [tmpTextsF, Ctx.tn]; rfl
-    · refine hl3.append (LinesOK.cons ⟨fun y hy => ?_, fun nm ar e' => by cases e'⟩ sim1.lines)
+    · refine hl3.append (LinesOK.cons ⟨fun y hy => ?_, fun nm ar e' => (by cases e'), rfl⟩ sim1.lines)
       simp only [lineTargets, List.mem_singleton] at hy
       exact Or.inr (Or.inl ⟨i, hy⟩)
     · intro fuel c res hs m hi
